@@ -129,6 +129,11 @@ func init() {
 	)}
 }
 
+func init() {
+	knownRepros["F-PHCOLLIDE"] = knownRepro{"c07", exprCase{Expr: "SET #x = :v", Item: model.Item{"#x": model.Str("keep"), "a": model.Str("1")},
+		Names: map[string]string{"#x": "a"}, Values: map[string]model.AV{":v": model.Str("2")}}}
+}
+
 // TestGenKnown writes the repro files.
 func TestGenKnown(t *testing.T) {
 	if os.Getenv("VERIF_GEN_KNOWN") == "" {
